@@ -15,12 +15,21 @@ import (
 //	1  NodeMarks history        Ops = [[code,id]...]  code 0 Mark 1 Unmark 2 Test 3 Next
 //	2  PreOrder/PostOrder/Reverse/Euler on graph G from every root in Roots
 //	3  SCC(G, Flags)
+//	4  MakeBiGraph(G)
+//	5  Equal(G, G2)
+//	6  SimplifyMulti(G with weights W; W absent = plain graph)
+//	7  SubgraphKeep(G, Nodes, Edges)      Edges = [[node, edge index]...]
+//	8  SubgraphRemove(G, Nodes, Edges)
 type c18Case struct {
 	Op    int      `json:"op"`
 	Ops   [][2]int `json:"ops,omitempty"`
 	G     [][]int  `json:"g,omitempty"`
 	Roots []int    `json:"roots,omitempty"`
 	Flags int      `json:"flags,omitempty"`
+	G2    [][]int  `json:"g2,omitempty"`
+	W     [][]F64  `json:"w,omitempty"`
+	Nodes []int    `json:"nodes,omitempty"`
+	Edges [][2]int `json:"edges,omitempty"`
 }
 
 const c18MaxID = 1 << 22
@@ -39,6 +48,14 @@ func c18Run(raw []byte) (*Line, error) {
 		return c18RunTrav(&c, l)
 	case 3:
 		return c18RunSCC(&c, l)
+	case 4:
+		return c18RunBi(&c, l)
+	case 5:
+		return c18RunEqual(&c, l)
+	case 6:
+		return c18RunSimplify(&c, l)
+	case 7, 8:
+		return c18RunSub(&c, l)
 	}
 	return nil, fmt.Errorf("bad op %d", c.Op)
 }
@@ -644,10 +661,551 @@ func c18GenSCC(tier string, rng *rand.Rand, emit func(interface{})) {
 	}
 }
 
+// ---------------------------------------------------------------- op 4: MakeBiGraph
+func c18RunBi(c *c18Case, l *Line) (*Line, error) {
+	if err := c18ValidGraph(c.G); err != nil {
+		return nil, err
+	}
+	orig := c18Copy(c.G)
+	g := graph.IntGraph(c.G)
+	l.c18Graph(orig)
+	var ins [][]int
+	outsame, idem := true, true
+	pan, _ := catch(func() {
+		b := graph.MakeBiGraph(g)
+		if b.NumNodes() != len(orig) {
+			outsame = false
+		}
+		for j := 0; j < len(orig); j++ {
+			ins = append(ins, append([]int{}, b.In(j)...))
+			o := b.Out(j)
+			if len(o) != len(orig[j]) {
+				outsame = false
+				continue
+			}
+			for k := range o {
+				if o[k] != orig[j][k] {
+					outsame = false
+				}
+			}
+		}
+		if graph.MakeBiGraph(b) != b {
+			idem = false
+		}
+	})
+	if pan {
+		l.I(2).I(0).I(0).I(0)
+	} else {
+		l.I(0).I(len(ins))
+		for _, x := range ins {
+			l.Is(x)
+		}
+		l.B(outsame).B(idem)
+	}
+	l.B(c18Same(orig, c.G))
+	return l, nil
+}
+
+// ---------------------------------------------------------------- op 5: Equal
+func c18RunEqual(c *c18Case, l *Line) (*Line, error) {
+	if err := c18ValidGraph(c.G); err != nil {
+		return nil, err
+	}
+	if err := c18ValidGraph(c.G2); err != nil {
+		return nil, err
+	}
+	o1, o2 := c18Copy(c.G), c18Copy(c.G2)
+	l.c18Graph(o1).c18Graph(o2)
+	res := false
+	pan, _ := catch(func() { res = graph.Equal(graph.IntGraph(c.G), graph.IntGraph(c.G2)) })
+	if pan {
+		l.I(2).I(0)
+	} else {
+		l.I(0).B(res)
+	}
+	l.B(c18Same(o1, c.G) && c18Same(o2, c.G2))
+	return l, nil
+}
+
+// ---------------------------------------------------------------- op 6: SimplifyMulti
+type c18Weighted struct {
+	graph.IntGraph
+	w [][]float64
+}
+
+func (x c18Weighted) OutWeight(i, e int) float64 { return x.w[i][e] }
+
+func c18RunSimplify(c *c18Case, l *Line) (*Line, error) {
+	if err := c18ValidGraph(c.G); err != nil {
+		return nil, err
+	}
+	weighted := c.W != nil
+	var w [][]float64
+	if weighted {
+		if len(c.W) != len(c.G) {
+			return nil, fmt.Errorf("weights do not match the graph")
+		}
+		for i := range c.W {
+			if len(c.W[i]) != len(c.G[i]) {
+				return nil, fmt.Errorf("weights do not match the graph")
+			}
+			row := fromF64s(c.W[i])
+			for _, x := range row {
+				if x != x || x > 1e9 || x < -1e9 || x*1024 != float64(int64(x*1024)) {
+					return nil, fmt.Errorf("weights must be small dyadic numbers (exact sums)")
+				}
+			}
+			w = append(w, row)
+		}
+	}
+	orig := c18Copy(c.G)
+	l.c18Graph(orig).B(weighted)
+	if weighted {
+		l.I(len(w))
+		for _, row := range w {
+			l.Fs(row)
+		}
+	} else {
+		l.I(0)
+	}
+	var rg [][]int
+	var rw [][]float64
+	pan, _ := catch(func() {
+		var in graph.Graph = graph.IntGraph(c.G)
+		if weighted {
+			in = c18Weighted{graph.IntGraph(c.G), w}
+		}
+		r := graphalg.SimplifyMulti(in)
+		for i := 0; i < r.NumNodes(); i++ {
+			o := append([]int{}, r.Out(i)...)
+			rg = append(rg, o)
+			ws := make([]float64, len(o))
+			for e := range o {
+				ws[e] = r.OutWeight(i, e)
+			}
+			rw = append(rw, ws)
+		}
+	})
+	if pan {
+		l.I(2).I(0).I(0)
+	} else {
+		l.I(0).c18Graph(rg).I(len(rw))
+		for _, row := range rw {
+			l.Fs(row)
+		}
+	}
+	pure := c18Same(orig, c.G)
+	if weighted {
+		for i := range w {
+			for j := range w[i] {
+				if w[i][j] != float64(c.W[i][j]) {
+					pure = false
+				}
+			}
+		}
+	}
+	l.B(pure)
+	return l, nil
+}
+
+// ---------------------------------------------------------------- op 7/8: SubgraphKeep / SubgraphRemove
+func c18RunSub(c *c18Case, l *Line) (*Line, error) {
+	if err := c18ValidGraph(c.G); err != nil {
+		return nil, err
+	}
+	const lim = 1 << 16
+	for _, v := range c.Nodes {
+		if v < -lim || v > lim {
+			return nil, fmt.Errorf("node id too large")
+		}
+	}
+	for _, e := range c.Edges {
+		if e[0] < -lim || e[0] > lim || e[1] < -lim || e[1] > lim {
+			return nil, fmt.Errorf("edge id too large")
+		}
+	}
+	orig := c18Copy(c.G)
+	nodes := append([]int{}, c.Nodes...)
+	edges := make([]graph.Edge, len(c.Edges))
+	for i, e := range c.Edges {
+		edges[i] = graph.Edge{Node: e[0], Edge: e[1]}
+	}
+	l.c18Graph(orig).Is(c.Nodes).I(2 * len(c.Edges))
+	for _, e := range c.Edges {
+		l.I(e[0]).I(e[1])
+	}
+	type nd struct {
+		old  int
+		out  []int
+		emap []int
+	}
+	var res []nd
+	pan, _ := catch(func() {
+		var s graph.Subgraph
+		if c.Op == 7 {
+			s = graph.SubgraphKeep(graph.IntGraph(c.G), nodes, edges)
+		} else {
+			s = graph.SubgraphRemove(graph.IntGraph(c.G), nodes, edges)
+		}
+		nm := s.NodeMap(func(node int) interface{} { return node })
+		em := s.EdgeMap(func(node, edge int) interface{} { return [2]int{node, edge} })
+		for i := 0; i < s.NumNodes(); i++ {
+			x := nd{old: nm(i).(int), out: append([]int{}, s.Out(i)...)}
+			for j := range x.out {
+				p := em(i, j).([2]int)
+				x.emap = append(x.emap, p[0], p[1])
+			}
+			res = append(res, x)
+		}
+	})
+	if pan {
+		l.I(2).I(0)
+	} else {
+		l.I(0).I(len(res))
+		for _, x := range res {
+			l.I(x.old).Is(x.out).Is(x.emap)
+		}
+	}
+	pure := c18Same(orig, c.G) && len(nodes) == len(c.Nodes)
+	for i := range nodes {
+		if pure && nodes[i] != c.Nodes[i] {
+			pure = false
+		}
+	}
+	for i := range edges {
+		if edges[i].Node != c.Edges[i][0] || edges[i].Edge != c.Edges[i][1] {
+			pure = false
+		}
+	}
+	l.B(pure)
+	return l, nil
+}
+
+// all lists of length <= maxLen over targets 0..n-1
+func c18AllLists(n, maxLen int) [][]int {
+	res := [][]int{{}}
+	prev := [][]int{{}}
+	for k := 0; k < maxLen; k++ {
+		var next [][]int
+		for _, p := range prev {
+			for t := 0; t < n; t++ {
+				next = append(next, append(append([]int{}, p...), t))
+			}
+		}
+		res = append(res, next...)
+		prev = next
+	}
+	return res
+}
+
+func c18GenGraphOps(tier string, rng *rand.Rand, emit func(interface{})) {
+	thorough := tier == "thorough"
+	scale := 1
+	if thorough {
+		scale = 12
+	}
+	// pool of graphs: every digraph on <= 3 nodes, a sample of the 4-node ones, variants, random multigraphs
+	var pool [][][]int
+	for n := 0; n <= 3; n++ {
+		for mask := uint64(0); mask < 1<<uint(n*n); mask++ {
+			g := c18MaskGraph(n, mask)
+			pool = append(pool, g, c18Variant(rng, g))
+		}
+	}
+	for k := 0; k < 1500*scale; k++ {
+		g := c18MaskGraph(4, uint64(rng.Intn(1<<16)))
+		if k%2 == 0 {
+			g = c18Variant(rng, g)
+		}
+		pool = append(pool, g)
+	}
+	for k := 0; k < 500*scale; k++ {
+		n := 1 + rng.Intn(60)
+		if rng.Intn(3) == 0 {
+			n = 1 + rng.Intn(9)
+		}
+		pool = append(pool, c18RandGraph(rng, n))
+	}
+	var big [][][]int
+	for _, n := range []int{1023, 1025, 2049, 5000} {
+		for kind := 0; kind < 6; kind++ {
+			big = append(big, c18Structured(rng, kind, n, rng.Intn(3)))
+		}
+	}
+	// ---- op 4
+	for _, g := range pool {
+		emit(c18Case{Op: 4, G: g})
+	}
+	for _, g := range big {
+		emit(c18Case{Op: 4, G: g})
+	}
+	// ---- op 5: every pair of 2-node graphs with adjacency lists of length <= 2, then perturbations
+	l2 := c18AllLists(2, 2)
+	var g2s [][][]int
+	for _, a := range l2 {
+		for _, b := range l2 {
+			g2s = append(g2s, [][]int{a, b})
+		}
+	}
+	for _, a := range g2s {
+		for _, b := range g2s {
+			emit(c18Case{Op: 5, G: c18Copy(a), G2: c18Copy(b)})
+		}
+	}
+	for _, a := range c18AllLists(3, 3) { // one node of a 3-node graph against every other list
+		for _, b := range c18AllLists(3, 3) {
+			if len(a) == len(b) || rng.Intn(10) == 0 {
+				emit(c18Case{Op: 5, G: [][]int{a, {}, {}}, G2: [][]int{b, {}, {}}})
+			}
+		}
+	}
+	for _, g := range pool {
+		if len(g) == 0 {
+			emit(c18Case{Op: 5, G: g, G2: [][]int{}})
+			emit(c18Case{Op: 5, G: g, G2: [][]int{{}}})
+			continue
+		}
+		h := c18Copy(g)
+		switch rng.Intn(7) {
+		case 0: // identical
+		case 1, 2: // same multisets, other order
+			for i := range h {
+				a := h[i]
+				rng.Shuffle(len(a), func(x, y int) { a[x], a[y] = a[y], a[x] })
+			}
+		case 3: // one target changed
+			i := rng.Intn(len(h))
+			if len(h[i]) > 0 {
+				h[i][rng.Intn(len(h[i]))] = rng.Intn(len(h))
+			}
+		case 4: // same sets, different multiplicities: [a a b] vs [a b b]
+			i := rng.Intn(len(h))
+			if len(h[i]) >= 2 {
+				h[i][0] = h[i][len(h[i])-1]
+			}
+			a := h[i]
+			rng.Shuffle(len(a), func(x, y int) { a[x], a[y] = a[y], a[x] })
+		case 5: // one more / one fewer node
+			if rng.Intn(2) == 0 {
+				h = append(h, []int{})
+			} else {
+				h = c18RandGraph(rng, len(h))
+			}
+		default: // an edge added or dropped
+			i := rng.Intn(len(h))
+			if len(h[i]) > 0 && rng.Intn(2) == 0 {
+				h[i] = h[i][1:]
+			} else {
+				h[i] = append(h[i], rng.Intn(len(h)))
+			}
+		}
+		emit(c18Case{Op: 5, G: g, G2: h})
+	}
+	for _, g := range big[:8] {
+		h := c18Copy(g)
+		i := rng.Intn(len(h))
+		if len(h[i]) > 0 && rng.Intn(2) == 0 {
+			h[i][0] = (h[i][0] + 1) % len(h)
+		}
+		emit(c18Case{Op: 5, G: g, G2: h})
+	}
+	// ---- op 6
+	wts := func(g [][]int) [][]F64 {
+		w := make([][]F64, len(g))
+		for i := range g {
+			w[i] = make([]F64, len(g[i]))
+			for j := range w[i] {
+				switch rng.Intn(4) {
+				case 0:
+					w[i][j] = F64(float64(rng.Intn(7) - 3))
+				case 1:
+					w[i][j] = 1
+				default:
+					w[i][j] = F64(float64(rng.Intn(161)-80) / 8)
+				}
+			}
+		}
+		return w
+	}
+	l3 := c18AllLists(2, 3)
+	for _, a := range l3 {
+		for _, b := range l3 {
+			g := [][]int{a, b}
+			emit(c18Case{Op: 6, G: c18Copy(g)})
+			emit(c18Case{Op: 6, G: c18Copy(g), W: wts(g)})
+		}
+	}
+	for _, a := range c18AllLists(3, 4) {
+		g := [][]int{{}, a, {}}
+		if rng.Intn(2) == 0 {
+			emit(c18Case{Op: 6, G: g})
+		} else {
+			emit(c18Case{Op: 6, G: g, W: wts(g)})
+		}
+	}
+	for k, g := range pool {
+		if k%3 == 0 {
+			continue
+		}
+		h := c18Copy(g)
+		if k%2 == 0 { // heavy duplication
+			for i := range h {
+				for r := rng.Intn(4); r > 0 && len(h[i]) > 0; r-- {
+					h[i] = append(h[i], h[i][rng.Intn(len(h[i]))])
+				}
+			}
+		}
+		if rng.Intn(2) == 0 {
+			emit(c18Case{Op: 6, G: h})
+		} else {
+			emit(c18Case{Op: 6, G: h, W: wts(h)})
+		}
+	}
+	for _, g := range big[:6] {
+		emit(c18Case{Op: 6, G: c18Variant(rng, g)})
+	}
+	// ---- op 7 / 8
+	allEdges := func(g [][]int) [][2]int {
+		var es [][2]int
+		for i := range g {
+			for j := range g[i] {
+				es = append(es, [2]int{i, j})
+			}
+		}
+		return es
+	}
+	subset := func(n int, p float64) []int {
+		r := []int{}
+		for i := 0; i < n; i++ {
+			if rng.Float64() < p {
+				r = append(r, i)
+			}
+		}
+		return r
+	}
+	keepCase := func(g [][]int, nodes []int, p float64) c18Case {
+		in := map[int]bool{}
+		for _, v := range nodes {
+			in[v] = true
+		}
+		es := [][2]int{}
+		for _, e := range allEdges(g) {
+			if in[e[0]] && in[g[e[0]][e[1]]] && rng.Float64() < p {
+				es = append(es, e)
+			}
+		}
+		rng.Shuffle(len(es), func(x, y int) { es[x], es[y] = es[y], es[x] })
+		return c18Case{Op: 7, G: g, Nodes: nodes, Edges: es}
+	}
+	// every graph on <= 3 nodes x every node subset (ascending and shuffled), all induced edges
+	for n := 1; n <= 3; n++ {
+		for mask := uint64(0); mask < 1<<uint(n*n); mask++ {
+			g := c18MaskGraph(n, mask)
+			if rng.Intn(3) == 0 {
+				g = c18Variant(rng, g)
+			}
+			for sub := 0; sub < 1<<uint(n); sub++ {
+				nodes := []int{}
+				for i := 0; i < n; i++ {
+					if sub>>uint(i)&1 == 1 {
+						nodes = append(nodes, i)
+					}
+				}
+				c := keepCase(g, nodes, 1)
+				emit(c)
+				sh := append([]int{}, nodes...)
+				rng.Shuffle(len(sh), func(x, y int) { sh[x], sh[y] = sh[y], sh[x] })
+				emit(keepCase(g, sh, 0.7))
+				// remove: the complement view, with some edges removed by name
+				es := allEdges(g)
+				rme := [][2]int{}
+				for _, e := range es {
+					if rng.Intn(3) == 0 {
+						rme = append(rme, e)
+					}
+				}
+				emit(c18Case{Op: 8, G: g, Nodes: nodes, Edges: rme})
+			}
+		}
+	}
+	for k, g := range append(append([][][]int{}, pool...), big[:12]...) {
+		n := len(g)
+		if n == 0 {
+			emit(c18Case{Op: 7, G: g, Nodes: []int{}, Edges: [][2]int{}})
+			emit(c18Case{Op: 8, G: g, Nodes: []int{}, Edges: [][2]int{}})
+			emit(c18Case{Op: 8, G: g, Nodes: []int{0}, Edges: [][2]int{}})
+			continue
+		}
+		if n <= 3 && k%4 != 0 {
+			continue
+		}
+		p := []float64{0.2, 0.5, 0.8, 1}[rng.Intn(4)]
+		nodes := subset(n, p)
+		if rng.Intn(2) == 0 {
+			rng.Shuffle(len(nodes), func(x, y int) { nodes[x], nodes[y] = nodes[y], nodes[x] })
+		}
+		c := keepCase(g, nodes, []float64{0.3, 0.7, 1}[rng.Intn(3)])
+		switch rng.Intn(12) { // malformed requests
+		case 0:
+			if len(c.Nodes) > 0 {
+				c.Nodes = append(c.Nodes, c.Nodes[rng.Intn(len(c.Nodes))]) // duplicate node: panics
+			}
+		case 1:
+			c.Nodes = append(c.Nodes, n+rng.Intn(3)) // node outside the graph: panics
+		case 2:
+			c.Nodes = append([]int{-1 - rng.Intn(2)}, c.Nodes...)
+		case 3:
+			es := allEdges(g) // edges whose endpoints are not all kept: the Go maps answer 0
+			if len(es) > 0 {
+				c.Edges = append(c.Edges, es[rng.Intn(len(es))])
+			}
+		case 4:
+			i := rng.Intn(n)
+			c.Edges = append(c.Edges, [2]int{i, len(g[i]) + rng.Intn(2)}) // edge index out of range: panics
+		case 5:
+			if len(c.Edges) > 0 {
+				c.Edges = append(c.Edges, c.Edges[rng.Intn(len(c.Edges))]) // the same edge twice
+			}
+		case 6:
+			c.Edges = append(c.Edges, [2]int{n + rng.Intn(2), 0}) // edge of a node outside the graph
+		}
+		emit(c)
+		// remove
+		rm := subset(n, []float64{0, 0.15, 0.4, 0.8}[rng.Intn(4)])
+		rng.Shuffle(len(rm), func(x, y int) { rm[x], rm[y] = rm[y], rm[x] })
+		rme := [][2]int{}
+		for _, e := range allEdges(g) {
+			if rng.Intn(4) == 0 {
+				rme = append(rme, e)
+			}
+		}
+		switch rng.Intn(10) {
+		case 0:
+			if len(rm) > 0 {
+				rm = append(rm, rm[rng.Intn(len(rm))]) // duplicates are harmless
+			}
+		case 1:
+			rm = append(rm, n+rng.Intn(3), -1) // ids outside the graph are ignored ...
+		case 2:
+			for x := 0; x < n+2; x++ { // ... until there are more of them than nodes: negative capacity, panics
+				rm = append(rm, n+x)
+			}
+		case 3:
+			rme = append(rme, [2]int{rng.Intn(n), 50}, [2]int{n + 1, 0}, [2]int{-1, 0}) // edges that do not exist
+		case 4:
+			if len(rme) > 0 {
+				rme = append(rme, rme[0])
+			}
+		}
+		emit(c18Case{Op: 8, G: g, Nodes: rm, Edges: rme})
+	}
+}
+
 func c18Gen(tier string, rng *rand.Rand, emit func(interface{})) {
 	c18GenMarks(tier, rng, emit)
 	c18GenTrav(tier, rng, emit)
 	c18GenSCC(tier, rng, emit)
+	c18GenGraphOps(tier, rng, emit)
 }
 
 func init() { register(&Prop{ID: "C18", Num: 18, Gen: c18Gen, Run: c18Run}) }
